@@ -5,7 +5,7 @@ runs the named checks of the framework copy /root/work/mutcheck against it, and 
 under /verif/seeded/<name>/ (patch.diff, demo, meta.json)."""
 import sys, os, subprocess, json, shutil, re, time
 seed, name, pids = sys.argv[1], sys.argv[2], sys.argv[3:]
-REPO = "/root/work/mutrepo"; CHK = "/root/work/mutcheck"
+REPO = os.environ.get("SEED_REPO", "/root/work/mutrepo"); CHK = os.environ.get("SEED_CHK", "/root/work/mutcheck")
 def sh(cmd, cwd=None, timeout=7200):
     env = dict(os.environ, CARGO_NET_OFFLINE="true")
     p = subprocess.run(cmd, shell=True, cwd=cwd, stdout=subprocess.PIPE, stderr=subprocess.STDOUT, timeout=timeout, env=env)
